@@ -222,6 +222,7 @@ class Engine:
         self.fns = fns; self.adts = adts; self.impls = impls
         self.scalar_types = dict(scalar_types or {})
         self.hooks = list(hooks or [])
+        self.lazy_vec_len = None      # when set: lazily created Vec<T>/map inputs get exactly this many (lazily created) elements
         self.max_steps, self.max_paths, self.solver_timeout_ms = max_steps, max_paths, solver_timeout_ms
         self.children = {}
         self.by_last = {}
@@ -715,7 +716,14 @@ class Engine:
                 t = self.deref_val(st, a)
                 if isinstance(t, Obj) and 'items' in t.attrs:
                     return z3.BitVecVal(len(t.attrs['items']), 64)
-                raise MirError('PtrMetadata of unshaped value')
+                if z3.is_bv(t) and t.size() % 8 == 0:
+                    return z3.BitVecVal(t.size() // 8, 64)
+                if isinstance(t, Obj) and t.kind is None and not t.fields:
+                    # a lazily created buffer whose contents were never inspected: only its length is observable (same symbol as Vec::len / Bytes::len use)
+                    if 'symlen' not in t.attrs:
+                        t.attrs['symlen'] = z3.BitVec(f'len_{t.lz}', 64)
+                    return t.attrs['symlen']
+                raise MirError(f'PtrMetadata of unshaped value {t!r}')
         if k == 'cast':
             return self.cast(st, self.operand(st, rv[1]), rv[2], rv[3], fr, rv[1])
         if k == 'discr':
